@@ -897,7 +897,7 @@ func (em *emitter) emitUnaryOp(expr *ast.UnaryOperator, reg int8, regType reflec
 
 	// *operand
 	case ast.OperatorPointer:
-		exprReg := em.emitExpr(operand, operandType)
+		exprReg := em.directRegister(em.emitExpr(operand, operandType), operandType)
 		if canEmitDirectly(exprType.Kind(), regType.Kind()) {
 			em.changeRegister(false, -exprReg, reg, operandType.Elem(), regType)
 			return
@@ -1052,4 +1052,18 @@ func (em *emitter) emitUnaryOp(expr *ast.UnaryOperator, reg int8, regType reflec
 
 	}
 
+}
+
+// directRegister returns a direct register that holds the value, with type
+// typ, of the register reg. If reg is an indirect register, as for a variable
+// referred to by a function literal, the value is copied into a new register.
+// It is used for the pointer of an indirection, that is emitted as the
+// negation of the register of the pointer.
+func (em *emitter) directRegister(reg int8, typ reflect.Type) int8 {
+	if reg >= 0 {
+		return reg
+	}
+	tmp := em.fb.newRegister(typ.Kind())
+	em.changeRegister(false, reg, tmp, typ, typ)
+	return tmp
 }
